@@ -43,6 +43,10 @@ def apply_edits(root, edits):
 
 
 def apply_patch(root, patch_file):
+    # the stored patch has to apply the way the seeds are documented to be applied (git apply, no fuzz)
+    r = subprocess.run(['git', '-C', REPO, 'apply', '--check', patch_file], capture_output=True, text=True)
+    if r.returncode != 0:
+        raise RuntimeError('git apply --check fails on the current tree (seed needs a rebase): %s' % (r.stderr.strip()[:200]))
     r = subprocess.run(['patch', '-p1', '-s', '-d', root, '-i', patch_file], capture_output=True, text=True)
     if r.returncode != 0:
         raise RuntimeError('patch does not apply: %s %s' % (patch_file, r.stdout + r.stderr))
